@@ -136,10 +136,11 @@ func alphabet(thorough bool) []op {
 		{name: "Get(P)", kind: "get", pid: pP},
 		{name: "Get(Q)", kind: "get", pid: pQ},
 		{name: "advance(ttl+)", kind: "advance", dur: ttl + time.Second},
+		// a record without an advertisement time ("missing time treated as oldest")
+		{name: "S0.P=notime", kind: "set", src: 0, pid: pP, ver: 1},
 	}
 	if thorough {
 		ops = append(ops,
-			op{name: "S0.P=notime", kind: "set", src: 0, pid: pP, ver: 1},
 			op{name: "S0.Q=gone", kind: "set", src: 0, pid: pQ, ver: 0},
 			op{name: "S0.fail", kind: "fail", src: 0},
 			op{name: "S1.fail", kind: "fail", src: 1},
